@@ -74,7 +74,7 @@ class CoopRLock:
         return self.owner is not None
 
 
-STALL_SECONDS = 60
+STALL_SECONDS = 10
 
 
 class Point:
@@ -248,12 +248,12 @@ class Scheduler:
             for s in self.sems:
                 s.release()
         for t in threads:
-            t.join(timeout=120)
+            t.join(timeout=5 if self.stuck else 120)
         alive = [t for t in threads if t.is_alive()]
         _CURRENT = None
-        if alive:
+        if alive and not self.stuck:
             raise RuntimeError("scheduler: threads did not unwind")
-        return self
+        return self  # (after a stall, a thread blocked on a lock the scheduler does not own may be left behind: daemon thread)
 
     # ---- bookkeeping -------------------------------------------------------------------------
     def choices(self):
@@ -305,6 +305,12 @@ def explore(make_bodies, sched_files, bound, on_execution, opcode_funcs=(), max_
             on_execution(s, ctx)  # the root execution is judged by shard 0 only
         else:
             stats["executions"] -= 1
+        if getattr(s, "stuck", False):
+            # a thread is blocked outside the scheduler's control; it has been reported (deadlock) and may still be alive:
+            # nothing explored after this point in this process could be trusted
+            stats["stuck"] = True
+            stats["capped"] = True
+            break
         if verify_every and (stats["executions"] + (1 if root and shard and shard[0] != 0 else 0)) % verify_every == 1:
             # determinism is demonstrated, not assumed: the same choices must reproduce the same trace
             if setup:
